@@ -107,6 +107,8 @@ def _apply(objs, op, values):
         drive.call(o, {})
     elif name == "delprop":
         del o.properties[arg[0]]
+    elif name == "setpropdefault":
+        o.properties[arg[0]].element.default = codec.val_to_py(arg[1])
     elif name == "setelems":
         o.elements = [drive.build_element(_fix(x)) for x in arg]
     elif name == "moveprop":
